@@ -147,6 +147,7 @@ def stop_race(fmts):
 
 
 def build(tier):
+    P.contract()  # tabulated once here, inherited by every forked explorer
     q = tier == "quick"
     N = 2 if q else 3
     hs = [
